@@ -1,9 +1,12 @@
 (* C07 — LALR(k) resolution never changes the accepted language.
    Models: Gram/Run.v default_machine (Lalr rows with deep references walked over the following tokens, as
-   resolveDeepLA does), Gram/ValidatorK.v (boolean check of LALR(k) tables against an LR(0) item certificate). *)
+   resolveDeepLA does), Gram/ValidatorK.v (boolean check of LALR(k) tables against an LR(0) item certificate:
+   soundness), Gram/ValidatorKC.v (boolean check against an item certificate with lookahead STRINGS of up to k
+   terminals: completeness).  Both checks are evaluated on lalr.Compile's real tables for every sampled grammar. *)
 From Coq Require Import List ZArith Bool.
 From TM Require Import Gram.Cfg Gram.PTables Gram.Run Gram.Derive Gram.Validator Gram.Validator_proofs Gram.LRSound
-                       Gram.ValidatorK Gram.ValidatorK_proofs.
+                       Gram.ValidatorK Gram.ValidatorK_proofs Gram.ValidatorK_proofs2
+                       Gram.ValidatorKC Gram.ValidatorKC_proofs Gram.ValidatorKC_ex_proofs.
 Import ListNotations.
 Local Open Scope Z_scope.
 
@@ -31,11 +34,105 @@ Theorem C07_every_deep_answer_is_checked :
   forall t jst f n a more, all_ok n t jst a = true -> 0 <= deep_walk f t a more -> jst (deep_walk f t a more) = true.
 Proof. exact deep_ok. Qed.
 
-(* NOT proved (partial): the completeness half (every sentence is accepted, i.e. the rule chosen by the deep rows is
-   the one under which the rest of the input parses). It needs a k-token lookahead certificate; it is judged on
-   every sampled grammar by running the loop model on the real tables over sampled sentences and ALL short strings
-   against the chart recogniser. *)
+(* ---- completeness side ---- *)
+(* tables without LALR(k) rows (no cell in range refers to a deep row): the loop with deep-row walking IS C01's loop
+   on every input, so Validator.check (C01's full check, on the LALR(1) reading of the tables) gives the exact language *)
+Theorem C07_no_deep_rows_same_run :
+  forall g t rule_len rule_sym nstates finals nl ft ann,
+  check g (lalr1_machine t rule_len rule_sym) nstates finals nl ft ann = true ->
+  no_deep t nstates (vT g) = true ->
+  forall i, (i < ninputs g)%nat -> forall ws, toks_ok g ws -> forall fuel,
+  parse fuel (default_machine t rule_len rule_sym) finals i ws = parse fuel (lalr1_machine t rule_len rule_sym) finals i ws.
+Proof. exact parse_no_deep_same. Qed.
+
+Theorem C07_no_deep_rows_exact_language :
+  forall g t rule_len rule_sym nstates finals nl ft ann,
+  check g (lalr1_machine t rule_len rule_sym) nstates finals nl ft ann = true ->
+  no_deep t nstates (vT g) = true ->
+  forall i, (i < ninputs g)%nat -> forall ws, toks_ok g ws -> forall nt eoi,
+  nth_error (g_inputs g) i = Some (nt, eoi) ->
+  (exists fuel, fst (parse fuel (default_machine t rule_len rule_sym) finals i ws) = Accept) <-> sentence g nt eoi ws.
+Proof. exact parse_no_deep_exact. Qed.
+
+(* check_k is a soundness check only.  The naive claim
+     check_k ... = true -> sentence g nt eoi ws -> exists fuel, fst (parse fuel ...) = Accept
+   is FALSE: a table set whose every action is "error" passes check_k and rejects the sentence [a] of S -> a. *)
+Theorem C07_check_k_alone_not_complete_refuted :
+  exists g t rule_len rule_sym nstates finals ann i nt eoi ws,
+    check_k g t rule_len rule_sym nstates finals ann = true /\
+    nth_error (g_inputs g) i = Some (nt, eoi) /\ toks_ok g ws /\ sentence g nt eoi ws /\
+    forall fuel, fst (parse fuel (default_machine t rule_len rule_sym) finals i ws) <> Accept.
+Proof. exact check_k_alone_not_complete. Qed.
+
+
+(* ---- completeness for tables WITH deep rows ---- *)
+(* For EVERY grammar, LALR(k) table set, k, FIRST_k table and k-lookahead item certificate accepted by
+   ValidatorKC.check_kc and EVERY token sequence: a sentence of the selected input is accepted by the loop with deep
+   rows, i.e. each deep row picks, for the actual continuation of the input, the reduction under which the rest
+   parses.  (The certificate and the FIRST_k table are untrusted hints; the glue computes them by LALR(k) propagation.) *)
+Theorem C07_lalr_k_parser_complete :
+  forall g t rule_len rule_sym nstates finals k ftk kann,
+  check_kc g t rule_len rule_sym nstates finals k ftk kann = true ->
+  forall i ws nt eoi,
+  toks_ok g ws -> nth_error (g_inputs g) i = Some (nt, eoi) -> sentence g nt eoi ws ->
+  exists fuel, fst (parse fuel (default_machine t rule_len rule_sym) finals i ws) = Accept.
+Proof. exact parse_complete_kc. Qed.
+
+(* both checks together: LALR(k) resolution does not change the accepted language *)
+Theorem C07_lalr_k_exact_language :
+  forall g t rule_len rule_sym nstates finals ann k ftk kann,
+  check_k g t rule_len rule_sym nstates finals ann = true ->
+  check_kc g t rule_len rule_sym nstates finals k ftk kann = true ->
+  forall i ws nt eoi,
+  toks_ok g ws -> nth_error (g_inputs g) i = Some (nt, eoi) ->
+  ((exists fuel, fst (parse fuel (default_machine t rule_len rule_sym) finals i ws) = Accept) <-> sentence g nt eoi ws).
+Proof. exact exact_language_k. Qed.
+
+(* the layer below, with the row answers as an explicit ORACLE hypothesis: if the certificate is closed (items advance
+   along the gotos, closure items carry FIRST_k(beta L), rule tables and accepting states are wired) and the loop
+   answers, on every remaining input that begins with a lookahead string of an item, the action of that item
+   (rows_agree), then every sentence is accepted.  rows_agree on the cells with deep rows is what the sampled runs
+   exercise; check_kc decides it (next theorem). *)
+Theorem C07_complete_relative_to_row_oracle :
+  forall g t rule_len rule_sym finals k ftk kann,
+  cert_closed g t rule_len rule_sym finals k ftk kann -> rows_agree g t k ftk kann ->
+  forall i ws nt eoi, toks_ok g ws -> nth_error (g_inputs g) i = Some (nt, eoi) -> sentence g nt eoi ws ->
+  exists fuel, fst (parse fuel (default_machine t rule_len rule_sym) finals i ws) = Accept.
+Proof. exact complete_of_oracle. Qed.
+
+Theorem C07_check_kc_establishes_the_oracle :
+  forall g t rule_len rule_sym nstates finals k ftk kann,
+  check_kc g t rule_len rule_sym nstates finals k ftk kann = true ->
+  cert_closed g t rule_len rule_sym finals k ftk kann /\ rows_agree g t k ftk kann.
+Proof. exact check_kc_conditions. Qed.
+
+(* non-vacuity on a real table set (S -> A c c | B c d d ; A -> a ; B -> a, k = 3, sampled from the harness): it has a
+   deep row and passes both checks; with the two answers of the deep row swapped check_k still passes (soundness only),
+   check_kc fails, and the loop indeed rejects the sentence a c c *)
+Example C07_check_kc_nonvacuous :
+  lalr_deep ex_t 1 3 = true /\
+  check_k ex_g ex_t ex_rl ex_rs ex_nstates ex_finals ex_ann = true /\
+  check_kc ex_g ex_t ex_rl ex_rs ex_nstates ex_finals ex_k ex_ftk ex_kann = true.
+Proof. exact (conj ex_has_deep_row (conj ex_check_k ex_check_kc)). Qed.
+
+Example C07_check_kc_discriminates :
+  check_k ex_g ex_t_bad ex_rl ex_rs ex_nstates ex_finals ex_ann = true /\
+  check_kc ex_g ex_t_bad ex_rl ex_rs ex_nstates ex_finals ex_k ex_ftk ex_kann = false /\
+  fst (parse 100 (default_machine ex_t_bad ex_rl ex_rs) ex_finals 0 [1; 3; 3]) <> Accept.
+Proof. exact (conj ex_bad_check_k (conj ex_bad_check_kc ex_bad_rejects)). Qed.
+
+(* NOT proved: that lalr/trie.go always produces tables passing check_kc (the generator is not modelled; the check is
+   evaluated on its output per sampled grammar), and minimality of the lookahead depth. *)
 
 Print Assumptions C07_lalr_k_parser_sound.
 Print Assumptions C07_lalr_k_parser_never_crashes.
 Print Assumptions C07_every_deep_answer_is_checked.
+Print Assumptions C07_no_deep_rows_same_run.
+Print Assumptions C07_no_deep_rows_exact_language.
+Print Assumptions C07_check_k_alone_not_complete_refuted.
+Print Assumptions C07_lalr_k_parser_complete.
+Print Assumptions C07_lalr_k_exact_language.
+Print Assumptions C07_complete_relative_to_row_oracle.
+Print Assumptions C07_check_kc_establishes_the_oracle.
+Print Assumptions C07_check_kc_nonvacuous.
+Print Assumptions C07_check_kc_discriminates.
